@@ -312,6 +312,19 @@ func applySame[T any](e *engC12, op Op, s []T, fam family[T]) (any, bool) {
 		}
 		return slice.PushHead(el, s), true
 	case "slice.Map":
+		if op.Fn == "reenter.pushlast" {
+			// a callback that itself calls the library on the slice being traversed (and drops the result):
+			// pure from the program's point of view, so nothing may change
+			return slice.Map(func(x T) T {
+				_ = slice.PushLast(x, s)
+				if len(s) > 0 {
+					_ = slice.PushLast(x, slice.PopLast(s))
+					_ = slice.PushHead(x, slice.Tail(s))
+				}
+				_ = slice.Append(s, s)
+				return x
+			}, s), true
+		}
 		f, ok := fam.maps[op.Fn]
 		if !ok {
 			return nil, false
@@ -330,7 +343,13 @@ func applySame[T any](e *engC12, op Op, s []T, fam family[T]) (any, bool) {
 		}, s), true
 	case "slice.Iter":
 		n := 0
-		slice.Iter(func(T) { n++ }, s)
+		slice.Iter(func(x T) {
+			n++
+			if op.Fn == "reenter.pushlast" {
+				_ = slice.PushLast(x, s)
+				_ = slice.Filter(func(T) bool { return n%2 == 0 }, s)
+			}
+		}, s)
 	case "slice.Filter":
 		p, ok := fam.preds[op.Fn]
 		if !ok {
@@ -845,6 +864,9 @@ func genHistoryC12(r *common.Rng, seed int64, run int) *History {
 		switch f {
 		case "slice.Length", "slice.Len", "slice.IsEmpty", "slice.IsNotEmpty", "slice.Iter", "slice.Fold":
 			op.Args = []string{self}
+			if f == "slice.Iter" && r.Chance(1, 3) {
+				op.Fn = "reenter.pushlast"
+			}
 		case "slice.Last", "slice.Head":
 			if known && v.n == 0 {
 				continue
@@ -890,6 +912,9 @@ func genHistoryC12(r *common.Rng, seed int64, run int) *History {
 			pooled = true
 		case "slice.Map", "slice.Mapi":
 			op.Fn = fnFor(v.typ, "map")
+			if f == "slice.Map" && r.Chance(1, 6) {
+				op.Fn = "reenter.pushlast"
+			}
 			op.Args = []string{self}
 			outLen, pooled = v.n, true
 		case "slice.Filter":
